@@ -5,7 +5,9 @@ the engine makes to a kernel together with the PRNG key it was handed) this file
 
 * ``WalkKernel`` - a LoggingKernel whose transition is a key-driven integer random walk.  Every
   position is an int32 vector of 5 slots  [value, key word 0, key word 1, nth_epoch, time_in_epoch+1]:
-      value_i := (3*value_i + value_((i+1) mod nk) + d_trans(key)) mod 9973,   d_trans(key) = key[0] mod 5
+      value_i := (3*value_i + value_((i+1) mod nk) + d_trans(key) + h_i) mod 9973,   d_trans(key) = key[0] mod 5,
+  where h_i = 0 until end_warmup and then (sum of the tuning infos handed to end_warmup) mod 9973; tune() returns
+  the kernel's current value as tuning info (so a chain that is handed other chains' tuning history moves differently)
   so the stored trajectory depends on the initial value, on every key and on the order of the kernels,
   and the stored sample itself tells which key / epoch / iteration produced it;
 * ``KeyGen`` - a quantity generator that returns the key and the epoch state it was handed;
@@ -53,10 +55,49 @@ def lib():
     def i32(x):
         return jnp.asarray(x, dtype=jnp.int32)
 
+    from liesel.goose.kernel import TuningOutcome, WarmupOutcome
+
+    @register_dataclass_as_pytree
+    @dataclass
+    class WalkState:
+        n: object      # as enginekit.LogState
+        buf: object
+        h: object      # what end_warmup folded out of the tuning history (0 before)
+
+    @register_dataclass_as_pytree
+    @dataclass
+    class WalkTuneInfo:
+        error_code: object
+        time: object
+        val: object    # state-dependent: the kernel's current position value
+
     class WalkKernel(L["LoggingKernel"]):
         def __init__(self, idx, nk):
             super().__init__(idx, False)
             self.nk = nk
+
+        def _log(self, ks, row):
+            base = super()._log(ks, row)
+            return WalkState(n=base.n, buf=base.buf, h=ks.h)
+
+        def init_state(self, prng_key, model_state):
+            ks = WalkState(n=i32(0), buf=jnp.full((ek.CAP, ek.W), -7, dtype=jnp.int32), h=i32(0))
+            return self._log(ks, self._row(ek.M_INIT, prng_key, model_state))
+
+        def _tune(self, meth, prng_key, kernel_state, model_state, epoch, history):
+            ks = self._log(kernel_state, self._row(meth, prng_key, model_state, epoch, history, True))
+            info = WalkTuneInfo(error_code=i32(0), time=i32(epoch.time), val=i32(model_state[f"p{self.idx}"][0]))
+            return TuningOutcome(info, ks)
+
+        def end_warmup(self, prng_key, kernel_state, model_state, tuning_history):
+            # documented protocol: tuning_history = this kernel's tuning infos of THIS chain, stacked over time
+            if tuning_history is None:
+                nt, h = 0, i32(0)
+            else:
+                nt = int(jnp.shape(tuning_history.time)[0])
+                h = i32(jnp.sum(tuning_history.val) % MOD)
+            ks = self._log(kernel_state, self._row(ek.M_ENDWARMUP, prng_key, model_state, ntune=nt))
+            return WarmupOutcome(error_code=i32(0), kernel_state=WalkState(n=ks.n, buf=ks.buf, h=h))
 
         def _trans(self, meth, prng_key, kernel_state, model_state, epoch):
             ks = self._log(kernel_state, self._row(meth, prng_key, model_state, epoch))
@@ -64,7 +105,7 @@ def lib():
             d = (w[0] % jnp.uint32(5)).astype(jnp.int32)
             me = model_state[f"p{self.idx}"]
             nb = model_state[f"p{(self.idx + 1) % self.nk}"]
-            val = (3 * me[0] + nb[0] + d) % MOD
+            val = (3 * me[0] + nb[0] + d + ks.h) % MOD
             new = jnp.stack([i32(val), as_i32(w[0]), as_i32(w[1]), i32(epoch.nth_epoch),
                              i32(epoch.time_in_epoch) + 1])
             pos = {f"p{self.idx}": new, "clock": i32(model_state["clock"]) + 1}
@@ -172,7 +213,8 @@ def run_config(cfg):
                          (one row for 'replicate', one row per supplied chain for 'per_chain'),
               optional: eseed: ['int', s] | ['key', [w0, w1]] | ['ctor']   (EngineBuilder.set_engine_seed),
                         builds: how often build() is called (the last engine is run),
-                        pre_init: {mode, init} set and built (engine dropped) before the real initial values}
+                        pre_init: {mode, init} set and built (engine dropped) before the real initial values,
+                        jit_pre: [None | [names], ...] earlier set_jitter_fns calls (then jit, None = set_jitter_fns(None))}
     Returns a dict of plain Python data (error = None or the exception class name)."""
     L = lib()
     jax, jnp, np, gs = L["jax"], L["jnp"], L["np"], L["gs"]
@@ -224,8 +266,13 @@ def run_config(cfg):
                 builder.set_engine_seed(jnp.asarray(es[1], dtype=jnp.uint32))
             else:                                   # "ctor": hand the constructor's own engine key back
                 builder.set_engine_seed(builder.engine_seed)
+        # earlier set_jitter_fns calls (the last call must win; None clears)
+        for jp in cfg.get("jit_pre") or []:
+            builder.set_jitter_fns(None if jp is None else {nm: L["jitter_fn"] for nm in jp})
         if cfg["jit"] is not None:
             builder.set_jitter_fns({nm: L["jitter_fn"] for nm in cfg["jit"]})
+        elif cfg.get("jit_pre"):
+            builder.set_jitter_fns(None)
         pre = cfg.get("pre_init")
         if pre is not None and cfg["via"] == "builder":
             # builder reuse: other initial values are set and an engine is built (and dropped) first
